@@ -281,6 +281,11 @@ func (m *Map) CompareAndDelete(k, o any) bool {
 	return m.real.CompareAndDelete(k, o)
 }
 
+// RawRange iterates without a scheduling point (observation hooks only; order is the real map's).
+//
+//go:norace
+func (m *Map) RawRange(f func(k, v any) bool) { m.real.Range(f) }
+
 func (m *Map) Range(f func(k, v any) bool) {
 	if !vrt.Managed() {
 		m.real.Range(f)
